@@ -79,25 +79,47 @@ Proof.
 Qed.
 
 (** ---------- JSON (cellmoc2d_to_json_aladin / cellmoc2d_from_json_aladin), character level ---------- *)
-(** the document written for ANY list of elements (both sides non-empty, cells inside their domain and
+(** every element carries its OWN depths (an element of a RangeMOC2 may be labelled shallower than the MOC2
+    it belongs to: the writers use the element's label, the trailing depth-only element the MOC2's).
+    The document written for ANY list of such elements (both sides non-empty, cells inside their domain and
     pairwise disjoint) is inside the JSON subset of the model and parses to the tree
     [ {"p1": {depth: [cells] ...}, "p2": {...}} ... , {"p1": {"d1": []}, "p2": {"d2": []}} ] *)
 Theorem C11_json_st_document_parses : forall q1 w1 q2 w2 p1 p2 d1 d2 fold,
   okw w1 -> okw w2 -> d1 <= max_depth q1 w1 -> d2 <= max_depth q2 w2 -> p1 <> p2 -> str_ok [p1] -> str_ok [p2] ->
   forall l, Forall (elem_ok2 q1 w1 q2 w2 d1 d2) l ->
-  jparse (st_to_json p1 p2 d1 d2 fold l) = JVal (doctree p1 p2 d1 d2 l).
+  jparse (st_to_json_l p1 p2 d1 d2 fold l) = JVal (doctree p1 p2 d1 d2 l).
 Proof. exact st_json_parse. Qed.
 
-(** writer then reader: both depths and every element come back (each side bucketed by depth, then sorted
-    by the reader), for EVERY fold width *)
+(** writer then reader: both depths OF THE MOC2 and every element come back (each side bucketed by depth, then
+    sorted by the reader), for EVERY fold width *)
 Theorem C11_json_st_roundtrip : forall (sortf : qty -> list aelem -> list aelem),
   (forall q l, Permutation (sortf q l) l) ->
   forall q1 w1 q2 w2 p1 p2 d1 d2 fold,
   okw w1 -> okw w2 -> d1 <= max_depth q1 w1 -> d2 <= max_depth q2 w2 -> p1 <> p2 -> str_ok [p1] -> str_ok [p2] ->
   forall l, Forall (elem_ok2 q1 w1 q2 w2 d1 d2) l ->
+  st_from_json sortf q1 w1 q2 w2 p1 p2 (st_to_json_l p1 p2 d1 d2 fold l)
+  = J2Ok d1 d2 (map (decoded sortf q1 q2) l).
+Proof. exact st_json_roundtrip_l. Qed.
+
+(** the usual case, every element labelled with the depths of the MOC2 *)
+Theorem C11_json_st_roundtrip_plain : forall (sortf : qty -> list aelem -> list aelem),
+  (forall q l, Permutation (sortf q l) l) ->
+  forall q1 w1 q2 w2 p1 p2 d1 d2 fold,
+  okw w1 -> okw w2 -> d1 <= max_depth q1 w1 -> d2 <= max_depth q2 w2 -> p1 <> p2 -> str_ok [p1] -> str_ok [p2] ->
+  forall l, Forall (elem_ok2_plain q1 w1 q2 w2 d1 d2) l ->
   st_from_json sortf q1 w1 q2 w2 p1 p2 (st_to_json p1 p2 d1 d2 fold l)
-  = J2Ok d1 d2 (map (decoded sortf q1 q2 d1 d2) l).
+  = J2Ok d1 d2 (map (decoded_plain sortf q1 q2 d1 d2) l).
 Proof. exact st_json_roundtrip. Qed.
+
+(** the same for the ASCII document: elements labelled with their own depths *)
+Theorem C11_ascii_st_roundtrip_labelled : forall (sortf : qty -> list aelem -> list aelem),
+  (forall q l, Permutation (sortf q l) l) ->
+  forall q1 w1 q2 w2 p1 p2 d1 d2 fold ul, okw w1 -> okw w2 -> d1 <= max_depth q1 w1 -> d2 <= max_depth q2 w2 ->
+  char_ok p1 = false /\ is_trim_ws p1 = false -> char_ok p2 = false -> p1 <> p2 ->
+  forall l, Forall (st_ok_l q1 w1 q2 w2 d1 d2) l ->
+  st_from_ascii sortf q1 w1 q2 w2 p2 p1 (st_to_ascii_l p1 p2 d1 d2 fold ul l) =
+  StOk d1 d2 (filter keep (map (st_norm_l sortf q1 q2) l)).
+Proof. exact st_ascii_roundtrip_l. Qed.
 
 (** the nesting the parser meets on the tokens of ANY value tree is the height of the tree *)
 Theorem C11_json_nesting_is_height : forall v, max_nest (toks v) <= hgt v.
@@ -105,11 +127,15 @@ Proof. exact max_nest_hgt. Qed.
 
 Example C11_json_nonvacuous :
   let l := [([(60, 6); (61, 100)], [(2, 0); (1, 1)]); ([(61, 200)], [(0, 3)])] in
-  Forall (elem_ok2 Time 64 Hpx 64 61 4) l /\ str_ok [116] /\ str_ok [115] /\
+  let ll := [((60, [(60, 6)]), (2, [(2, 0); (1, 1)])); ((61, [(61, 200)]), (0, [(0, 3)]))] in
+  Forall (elem_ok2_plain Time 64 Hpx 64 61 4) l /\ Forall (elem_ok2 Time 64 Hpx 64 61 4) ll /\ str_ok [116] /\ str_ok [115] /\
   st_from_json isort_e Time 64 Hpx 64 116 115 (st_to_json 116 115 61 4 (Some 10) l)
-  = J2Ok 61 4 [([ECell 60 6; ECell 61 100], [ECell 2 0; ECell 1 1]); ([ECell 61 200], [ECell 0 3])].
+  = J2Ok 61 4 [([ECell 60 6; ECell 61 100], [ECell 2 0; ECell 1 1]); ([ECell 61 200], [ECell 0 3])] /\
+  st_from_json isort_e Time 64 Hpx 64 116 115 (st_to_json_l 116 115 61 4 None ll)
+  = J2Ok 61 4 [([ECell 60 6], [ECell 2 0; ECell 1 1]); ([ECell 61 200], [ECell 0 3])].
 Proof.
-  split; [|split; [|split]]; try (vm_compute; reflexivity).
+  split; [|split; [|split; [|split; [|split]]]]; try (vm_compute; reflexivity).
+  - repeat (constructor || split); vm_compute; try reflexivity; try discriminate.
   - repeat (constructor || split); vm_compute; try reflexivity; try discriminate.
   - repeat constructor; vm_compute; try discriminate; try reflexivity.
   - repeat constructor; vm_compute; try discriminate; try reflexivity.
@@ -127,3 +153,5 @@ Print Assumptions C11_fits_file_roundtrip.
 Print Assumptions C11_json_st_document_parses.
 Print Assumptions C11_json_st_roundtrip.
 Print Assumptions C11_json_nesting_is_height.
+Print Assumptions C11_json_st_roundtrip_plain.
+Print Assumptions C11_ascii_st_roundtrip_labelled.
